@@ -514,10 +514,10 @@ def emit_decoders(L, pkgpath, structs, methods, src, stats):
             plain = '(result == "%s" || result == this.alias + ":" + "%s")' % (N, N)
             mapf = '(result == "%sMap" || result == this.alias + ":" + "%sMap")' % (N, N)
             if "properties" in names:
-                # Name() of a list goes through At(0).IsRDFLangString() on the element's interface: the dynamic
-                # dispatch is outside what this pass resolves; not under contract (named gap)
-                stats["skipped_structs"].append(pkgpath + "." + sname + ".Name")
-                continue
+                # Name() of a list goes through At(0).IsRDFLangString() on the element's interface: resolved to the
+                # element's own method because the receiver's concrete type is known (govc -devirt)
+                if not natural:
+                    pass
                 lang = "len(this.properties) == 1 && this.properties[0].rdfLangStringMember != nil"
                 nolang = "(forall k Int :: 0 <= k && k < len(this.properties) ==> this.properties[k].rdfLangStringMember == nil)"
             else:
